@@ -65,8 +65,9 @@ def child_env(hashseed="0"):
     return env
 
 
-class Timeout(Exception):
-    pass
+class Timeout(BaseException):
+    """the harness's own time limit; a BaseException so that no `except Exception` (ours or the
+    library's) can mistake it for a failure of the code under test"""
 
 
 class time_limit:
